@@ -11,8 +11,12 @@
                                         _check_value_class / _check_units, HedValidator.validate_units
      class_regex.json                 : class_words.numericClass (hand-written recogniser [scan_num])
    Numbers are exact rationals (Q): IEEE rounding of float() and of the two multiplications is NOT modelled.
-   [fixed = false] is the code as it stands; [fixed = true] is the repaired code (see DESIGN section 8,
-   findings 10 and 11): conversion looks a unit NAME up case-folded, and "a^b" is read as a power. *)
+   Three independent repair switches (false = the code before the repair, kept as the record of the defect):
+   [fixed] (fix: commits f83491d, d18c9c6; DESIGN section 8 findings 10, 11): conversion looks a unit NAME up
+           case-folded, and "a^b" is read as a power;
+   [f4]    (C11-F4): a unit after the number only counts when the value part is a single word;
+   [f3]    (C11-F3): the number is the FIRST word and the unit text everything after it, so that a unit name
+           may contain blanks (degree Celsius); prefix-type units still split at the last blank. *)
 From Coq Require Import List NArith ZArith QArith Bool.
 From HV Require Import Base.Res Base.Str.
 Import ListNotations.
@@ -39,6 +43,22 @@ Fixpoint split_last_space (s : str) : option (str * str) :=
       | None => if c =? 32 then Some ([], r) else None
       end
   end.
+
+(* s.partition(" "): Some (before, after) of the FIRST blank *)
+Fixpoint split_first_space (s : str) : option (str * str) :=
+  match s with
+  | [] => None
+  | c :: r =>
+      if c =? 32 then Some ([], r)
+      else match split_first_space r with
+           | Some (a, b) => Some (c :: a, b)
+           | None => None
+           end
+  end.
+
+(* number, _, unit_text = s.partition(" ") *)
+Definition partition_space (s : str) : str * str :=
+  match split_first_space s with Some p => p | None => (s, []) end.
 
 (* value, _, units = s.rpartition(" ") *)
 Definition rpartition_space (s : str) : str * str :=
@@ -320,32 +340,40 @@ Definition tag_unit_classes (S : uschema) (T : utag) : list classdef :=
                      | None => []
                      end) (t_classes T).
 
-(* the loop of HedTag._get_tag_units_portion *)
-Fixpoint portion_loop (S : uschema) (cs : list classdef) (value units : str)
+(* the loop of HedTag._get_tag_units_portion: (number, unit_text) is the split tried for a unit AFTER the number,
+   (units, value) = (number, unit text) the split tried for a prefix-type unit BEFORE the number.
+   [f4]: `and " " not in <number>` *)
+Fixpoint portion_loop (f4 : bool) (S : uschema) (cs : list classdef) (value units number unit_text : str)
   : option (str * str * unitdef) :=
   match cs with
   | [] => None
   | C :: rest =>
       let as_prefix :=
         match get_derivative_unit_entry S C value with
-        | Some U => if u_prefix U then Some (units, value, U) else portion_loop S rest value units
-        | None => portion_loop S rest value units
+        | Some U => if u_prefix U then Some (units, value, U)
+                    else portion_loop f4 S rest value units number unit_text
+        | None => portion_loop f4 S rest value units number unit_text
         end in
-      match get_derivative_unit_entry S C units with
-      | Some U => if negb (u_prefix U) then Some (value, units, U) else as_prefix
+      match get_derivative_unit_entry S C unit_text with
+      | Some U => if negb (u_prefix U) && (negb f4 || negb (has_space number))
+                  then Some (number, unit_text, U) else as_prefix
       | None => as_prefix
       end
   end.
 
-(* HedTag._get_tag_units_portion: None stands for (None, None, None) *)
-Definition get_tag_units_portion (S : uschema) (cs : list classdef) (ext : str)
+(* HedTag._get_tag_units_portion: None stands for (None, None, None).
+   [f3]: number, _, unit_text = extension_text.partition(" ")  (before the repair: the rpartition pair) *)
+Definition get_tag_units_portion (f3 f4 : bool) (S : uschema) (cs : list classdef) (ext : str)
   : option (str * str * unitdef) :=
   let (value, units) := rpartition_space ext in
-  if negb (nonempty units) then None else portion_loop S cs value units.
+  if negb (nonempty units) then None
+  else let (number, unit_text) := if f3 then partition_space ext else (value, units) in
+       portion_loop f4 S cs value units number unit_text.
 
 (* HedTag.get_stripped_unit_value *)
-Definition get_stripped_unit_value (S : uschema) (cs : list classdef) (ext : str) : str * option str :=
-  match get_tag_units_portion S cs ext with
+Definition get_stripped_unit_value (f3 f4 : bool) (S : uschema) (cs : list classdef) (ext : str)
+  : str * option str :=
+  match get_tag_units_portion f3 f4 S cs ext with
   | Some (sv, unit, _) => if nonempty sv then (sv, Some unit) else (ext, None)
   | None => (ext, None)
   end.
@@ -362,7 +390,7 @@ Definition default_unit (cs : list classdef) : option unitdef :=
   end.
 
 (* HedTag.value_as_default_unit; Ok None = returns None *)
-Definition value_as_default_unit (fixed : bool) (S : uschema) (cs : list classdef) (ext : str)
+Definition value_as_default_unit (fixed f3 f4 : bool) (S : uschema) (cs : list classdef) (ext : str)
   : res (option Q) :=
   let (value, units) := rpartition_space ext in
   let* r :=
@@ -371,7 +399,7 @@ Definition value_as_default_unit (fixed : bool) (S : uschema) (cs : list classde
        | None => Exn AttributeError                    (* unit_entry.name on None *)
        | Some ue => Ok (Some (units, u_name ue, ue))
        end
-     else Ok (get_tag_units_portion S cs ext)) in
+     else Ok (get_tag_units_portion f3 f4 S cs ext)) in
   match r with
   | None => Ok None
   | Some (sv, unit, ue) =>
@@ -397,8 +425,9 @@ Definition check_value_class (T : utag) (sv : str) : list code :=
   if t_numeric T then (if is_numeric sv then [] else [VALUE_INVALID]) else [].
 
 (* check_tag_unit_class_units_are_valid (is_unit_class_tag already established) *)
-Definition check_units_valid (S : uschema) (T : utag) (cs : list classdef) (text : str) : list code :=
-  let (sv, unit) := get_stripped_unit_value S cs text in
+Definition check_units_valid (f3 f4 : bool) (S : uschema) (T : utag) (cs : list classdef) (text : str)
+  : list code :=
+  let (sv, unit) := get_stripped_unit_value f3 f4 S cs text in
   let bad_units := has_space sv in
   let sv' := if bad_units then first_word sv else sv in
   check_value_class T sv'
@@ -408,11 +437,11 @@ Definition check_units_valid (S : uschema) (T : utag) (cs : list classdef) (text
      end.
 
 (* HedValidator.validate_units restricted to unit-class tags *)
-Definition validate_units (S : uschema) (T : utag) (ext : str) : list code :=
+Definition validate_units (f3 f4 : bool) (S : uschema) (T : utag) (ext : str) : list code :=
   if str_eqb ext [35] then []
   else match tag_unit_classes S T with
        | [] => []
-       | cs => check_units_valid S T cs ext
+       | cs => check_units_valid f3 f4 S T cs ext
        end.
 
 (* ------------------------------------------------------------------ candidates for a text (used by the spec) *)
